@@ -205,6 +205,7 @@ func runC19(c *Ctx) {
 	ruleWrapperElem(c, p, "C19.wrapper-elem")
 	ruleNullableTotal(c, p, "C19.nullable-total")
 	ruleDecimalGuard(c, p, "C19.decimal-guard")
+	ruleScale(c, p, "C19.scale")
 	ruleFreshTargets(c, p, "C19.fresh")
 	ruleMapInfer(c, p, "C19.mapinfer")
 	ruleForwardUnconditional(c, p, "C19.forward-always")
